@@ -266,6 +266,87 @@ def op_wcommit(w, op):
         w.events.append({'k': 'commit', 'sha': sha, 'why': 'wcommit'})
 
 
+def op_resolve_conflict(w, op):
+    """The author follows the procedure of the robot's Conflict message
+    (on the feature branch, or on the integration branch named there)."""
+    import re
+    pr = user_pr(w, op.get('p'))
+    if pr is None or pr.status != 'OPEN':
+        return
+    msg = None
+    for c in reversed(w.comments(pr.id)):
+        if c['by'] == ROBOT:
+            if c['text'].lstrip().startswith('# Conflict'):
+                msg = c['text']
+            break
+    if not msg:
+        return
+    actor = pr.author
+    heads = w.heads()
+
+    def take(side):
+        # resolve every conflicted path by taking one side
+        w.ugit('checkout', '--' + side, '--', '.', actor=actor, check=False)
+        w.ugit('add', '-A', actor=actor)
+        w.ncommit += 1
+        rc, _ = w.ugit('commit', '-q', '-m',
+                       'conflict resolution [c%d]' % w.ncommit, actor=actor,
+                       check=False)
+        return rc == 0
+
+    def merge(ref):
+        rc, _ = w.ugit('merge', '-q', '--no-edit', ref, actor=actor,
+                       check=False)
+        if rc != 0:
+            return take(op.get('side', 'theirs'))
+        return True
+    w.ugit('fetch', '-q', '--prune', 'origin', actor=actor)
+    if 'on **the feature branch**' in msg:
+        if pr.src_branch not in heads or pr.dst_branch not in heads:
+            return
+        w.ugit('checkout', '-q', '-B', pr.src_branch,
+               'origin/' + pr.src_branch, actor=actor)
+        if not merge('origin/' + pr.dst_branch):
+            w.ugit('merge', '--abort', actor=actor, check=False)
+            return
+        rc, _ = w.ugit('push', '-q', 'origin', pr.src_branch, actor=actor,
+                       check=False)
+        if rc == 0:
+            w.events.append({'k': 'pr', 'id': pr.id, 'why': 'resolved'})
+        return
+    m = re.search(r'integration branch `([^`]+)` with contents from '
+                  r'`([^`]+)`\s+and `([^`]+)`', msg)
+    if not m:
+        return
+    wname, source, dst = m.group(1), m.group(2), m.group(3)
+    if dst not in heads or source not in heads:
+        return
+    empty = 'I have not created the integration branch' in msg
+    if empty or wname not in heads:
+        w.ugit('checkout', '-q', '-B', wname, 'origin/' + dst, actor=actor)
+    else:
+        w.ugit('checkout', '-q', '-B', wname, 'origin/' + wname,
+               actor=actor)
+        if not merge('origin/' + dst):
+            w.ugit('merge', '--abort', actor=actor, check=False)
+            return
+    before = w.ugit('rev-parse', 'HEAD')[1].strip()
+    if not merge('origin/' + source):
+        w.ugit('merge', '--abort', actor=actor, check=False)
+        return
+    sha = w.ugit('rev-parse', 'HEAD')[1].strip()
+    rc, _ = w.ugit('push', '-q', '-u', 'origin', wname, actor=actor,
+                   check=False)
+    if rc == 0:
+        if sha != before:
+            w.manual_commits = getattr(w, 'manual_commits', [])
+            w.manual_commits.append({'sha': sha, 'branch': wname,
+                                     'pr': pr.id, 'kind': 'resolution'})
+        w.probe('conflict-resolved-by-hand')
+        w.events.append({'k': 'pr', 'id': pr.id, 'why': 'resolved'})
+        w.events.append({'k': 'commit', 'sha': sha, 'why': 'resolved'})
+
+
 def _review(method):
     def fn(w, op):
         pr = user_pr(w, op.get('p'))
@@ -530,6 +611,7 @@ APPLY = {
     'dismiss': _review('dismiss'), 'comment_review': _review(
         'comment_review'),
     'comment': op_comment, 'delete_comment': op_delete_comment,
+    'resolve_conflict': op_resolve_conflict,
     'ci': op_ci, 'ci_green_all': op_ci_green_all, 'jira': op_jira,
     'api': op_api, 'tag': op_tag, 'deliver': op_deliver, 'dup': op_dup,
     'drop': op_drop, 'deliver_all': op_deliver_all, 'eval': op_eval,
@@ -642,7 +724,7 @@ class Gen:
         'request_changes': 0.2, 'dismiss': 0.1, 'comment_review': 0.1,
         'comment': 1, 'delete_comment': 0.2, 'ci': 6, 'ci_green_all': 2,
         'api': 1, 'tag': 0.1, 'deliver': 8, 'dup': 0.3, 'drop': 0.0,
-        'deliver_all': 2, 'restart': 0.2,
+        'deliver_all': 2, 'restart': 0.2, 'resolve_conflict': 1.5,
     }
 
     def __init__(self, rng, cfg, weights=None, **kw):
@@ -737,6 +819,22 @@ class Gen:
                 'kind': rng.choice(['new'] * 8 + ['shared', 'ver']),
                 'from': rng.choice(['tip', 'tip', 'old']),
                 'ncommits': rng.choice([1, 1, 2])}
+
+    def g_resolve_conflict(self, w):
+        cands = []
+        for i, pid in enumerate(w.user_prs):
+            pr = w.host_pr(pid)
+            if pr is None or pr.status != 'OPEN':
+                continue
+            for c in reversed(w.comments(pid)):
+                if c['by'] == ROBOT:
+                    if c['text'].lstrip().startswith('# Conflict'):
+                        cands.append(i)
+                    break
+        if not cands:
+            return None
+        return {'op': 'resolve_conflict', 'p': self.rng.choice(cands),
+                'side': self.rng.choice(['theirs', 'ours'])}
 
     def g_wcommit(self, w):
         p = self.pick_pr(w)
